@@ -32,9 +32,9 @@ type syncMeta struct{ vc []int32 }
 type raceMeta struct {
 	wT   int
 	wC   int32
-	wPos string
+	wPos ssa.Instruction // position of the last write (formatted only when a race is reported)
 	rd   [maxThreads]int32
-	rPos [maxThreads]string
+	rPos [maxThreads]ssa.Instruction
 }
 
 type timerEnv struct {
@@ -120,7 +120,7 @@ func (r *Run) raceWrite(s *Slot) {
 }
 
 func (r *Run) raceCheck(m *raceMeta, write bool, what string) {
-	if m.wC == 0 && m.wT == 0 && m.wPos == "" {
+	if m.wC == 0 && m.wT == 0 && m.wPos == nil {
 		m.wT = -1
 	}
 	r.raceCheckAt(m, write, func() string { return what })
@@ -133,24 +133,24 @@ func (r *Run) raceCheckAt(m *raceMeta, write bool, what func() string) {
 	}
 	if m.wT >= 0 && m.wT != t.id && m.wC > t.vc[m.wT] {
 		r.crash(ORace, "data-race", fmt.Sprintf("%s of %s by thread %d at %s races with write by thread %d at %s",
-			rw(write), what(), t.id, r.where(), m.wT, m.wPos))
+			rw(write), what(), t.id, r.where(), m.wT, r.instrPos(m.wPos)))
 	}
 	if write {
 		for u := 0; u < maxThreads; u++ {
 			if u != t.id && m.rd[u] > t.vc[u] {
 				r.crash(ORace, "data-race", fmt.Sprintf("write of %s by thread %d at %s races with read by thread %d at %s",
-					what(), t.id, r.where(), u, m.rPos[u]))
+					what(), t.id, r.where(), u, r.instrPos(m.rPos[u])))
 			}
 		}
 		m.wT = t.id
 		m.wC = t.vc[t.id]
-		m.wPos = r.where()
+		m.wPos = r.curInstr()
 		for u := range m.rd {
 			m.rd[u] = 0
 		}
 	} else {
 		m.rd[t.id] = t.vc[t.id]
-		m.rPos[t.id] = r.where()
+		m.rPos[t.id] = r.curInstr()
 	}
 }
 
@@ -544,4 +544,26 @@ func (r *Run) selectInstr(t *Thread, fr *Frame, in *ssa.Select) bool {
 
 func (ch *ChanObj) typOrElem(st *ssa.SelectState) types.Type {
 	return under(st.Chan.Type()).(*types.Chan).Elem()
+}
+
+func (r *Run) curInstr() ssa.Instruction {
+	if r.cur == nil || len(r.cur.frames) == 0 {
+		return nil
+	}
+	fr := r.cur.top()
+	if fr.block == nil || fr.pc >= len(fr.block.Instrs) {
+		return nil
+	}
+	return fr.block.Instrs[fr.pc]
+}
+
+func (r *Run) instrPos(in ssa.Instruction) string {
+	if in == nil {
+		return "?"
+	}
+	fn := "?"
+	if in.Parent() != nil {
+		fn = in.Parent().Name()
+	}
+	return fn + "@" + r.eng.posOf(in.Pos())
 }
